@@ -245,6 +245,10 @@ pub fn run(tier: &str) -> i32 {
         items.extend(maps_over(&IDS_VARINT, 2, c));
         items.extend(maps_over(&IDS_U32, 2, c));
     }
+    // 100 KiB near-duplicates (above every block/buffer size on the hashing and copying paths)
+    for c in if thorough { COMPS.to_vec() } else { vec![Compression::None, Compression::ZStd] } {
+        items.extend(large_maps(c));
+    }
     let res: Vec<(usize, Prov, Api, Vec<(String, String)>)> = items
         .par_iter()
         .enumerate()
